@@ -430,6 +430,70 @@ def run_dealloc(prog, tier, repo):
                                   f'to the mark bit: only the sweeper may clear it and markers must set it, otherwise a '
                                   f'string marked since the last sweep is reclaimed')
     res.floor('mark-bit writes', n_mark, 2)
+    # MARK-TOTAL: a marker sets the bit for *every* heap-allocated temporary string it is given: the only ways past the
+    # mark write are "not a heap handle" (inline string) and "slot is not Temporary". An extra early return (cursor
+    # position, generation, ...) drops marks, and the string is reclaimed while still referenced.
+    n_total = 0
+    for b in heapbodies:
+        if b.id == sweeper.id:
+            continue
+        wblocks = []
+        for bi, bl in enumerate(b.blocks):
+            if bl.cleanup:
+                continue
+            for st in bl.stmts:
+                if st[0] != 'a' or not st[1].proj:
+                    continue
+                r, p = root_local(b, st[1].local)
+                allp = p + tuple(e for e in st[1].proj if e[0] in ('f', 't', 'v'))
+                fs = [e for e in allp if e[0] == 'f']
+                if fs and fs[-1][1] == slot.id and fs[-1][2] == temp and fs[-1][3] == 1 and st[2][0] == 'use' \
+                        and st[2][1][0] == 'k' and st[2][1][1].i == 1:
+                    wblocks.append(bi)
+        if not wblocks:
+            continue
+        n_total += 1
+        cfgb = cfg_of(b)
+        key = f'mark-total:{b.name}'
+        # the heap-handle test: switch on the Option returned by the handle decoder
+        some_targets = []
+        for bj, bl in enumerate(b.blocks):
+            t = bl.term
+            if bl.cleanup or t[0] != 'switch' or t[1][0] not in ('c', 'm'):
+                continue
+            sd = single_def(b, t[1][1].local)
+            if not sd or sd[1] == 'term' or sd[2][0] != 'disc' or sd[2][1].proj:
+                continue
+            od = single_def(b, sd[2][1].local)
+            if od and od[1] == 'term' and (callee(od[2])[1] or '').endswith('as_heap_id'):
+                some_targets += [tg for v, tg in t[2] if v == 1]
+        # the slot test: switch on the discriminant of a slot place; its Temporary edge
+        slot_switches = []
+        temp_targets = []
+        for bj, bl in enumerate(b.blocks):
+            t = bl.term
+            if bl.cleanup or t[0] != 'switch' or t[1][0] not in ('c', 'm'):
+                continue
+            sd = single_def(b, t[1][1].local)
+            if sd and sd[1] != 'term' and sd[2][0] == 'disc' and _place_is_slot(b, sd[2][1], slot):
+                slot_switches.append(bj)
+                temp_targets += [tg for v, tg in t[2] if v == temp]
+        if not some_targets or not slot_switches or not temp_targets:
+            res.cannot_decide(f'the heap-handle test and the slot test of the marker {b.name}', b.loc())
+            continue
+        bad = None
+        for tg in some_targets:
+            if not cfgb.nodes_postdominate(slot_switches, tg):
+                bad = 'a path that has a heap handle returns without looking at the slot'
+        for tg in temp_targets:
+            if not cfgb.nodes_postdominate(wblocks, tg):
+                bad = 'a path through the Temporary arm returns without setting the mark bit'
+        if bad:
+            res.violation(key, b.loc(), f'{b.name}: {bad}: the mark requested for a live temporary string is dropped on that path, and '
+                          f'the sweeper reclaims the string while handles to it are still in use')
+        else:
+            res.ok(key, b.loc(), 'every heap handle reaches the slot test and every Temporary slot gets its mark bit set')
+    res.floor('markers', n_total, 1)
     res.analysed['sweeper'] = sweeper.name
     return [res]
 
